@@ -85,24 +85,38 @@ basename of a search path is its last component -/
 def findTestFiles (e : Env) (roots : List (List Name × Tree)) : List (List Name) :=
   dedup [] (roots.flatMap (fun r => (findIn e (r.1.getLast?.getD []) r.2).map (fun p => r.1 ++ p)))
 
-/-- the dotted module name of a yielded file: the longest search path that is a prefix of the file's
-path is stripped (`options.prefix` is sorted longest first), the extension removed -/
-def moduleName (e : Env) (roots : List (List Name)) (path : List Name) : Option (List Name) :=
-  let cands := roots.filter (fun r => r.isPrefixOf path && r.length < path.length)
-  let sorted := PySort.isort (fun (a b : List Name) => decide (b.length ≤ a.length)) cands
+/-- the package under which a file is yielded: `find_test_files` keeps the first occurrence of a file,
+so it is the package of the first search path (in `options.test_path` order) that yields it.
+`pkgs` gives the package of each search path (`[]` for `--path` / `--test-path`, the dotted name
+split at the dots for `--package-path DIR PKG`). -/
+def yieldPkg (e : Env) (roots : List (List Name × Tree)) (pkgs : List (List Name)) (path : List Name) : List Name :=
+  match (roots.zip pkgs).find? (fun rp => ((findIn e (rp.1.1.getLast?.getD []) rp.1.2).map (fun p => rp.1.1 ++ p)).contains path) with
+  | some rp => rp.2
+  | none => []
+
+/-- the dotted module name of a yielded file (`find_suites`): the longest search path that is a
+prefix of the file's path *and* carries the package the file was yielded under is stripped
+(`options.prefix` is sorted longest first, stably), the extension removed, the package put in front -/
+def moduleName (e : Env) (roots : List (List Name × Tree)) (pkgs : List (List Name)) (path : List Name) :
+    Option (List Name) :=
+  let pkg := yieldPkg e roots pkgs path
+  let cands := ((roots.map (·.1)).zip pkgs).filter
+    (fun rp => rp.1.isPrefixOf path && rp.1.length < path.length && rp.2 == pkg)
+  let sorted := PySort.isort (fun (a b : List Name × List Name) => decide (b.1.length ≤ a.1.length)) cands
   match sorted with
   | [] => none
   | r :: _ =>
-    let rel := path.drop r.length
+    let rel := path.drop r.1.length
     match rel.getLast? with
     | none => none
-    | some f => (stripPyExt e f).map (fun noext => rel.dropLast ++ [noext])
+    | some f => (stripPyExt e f).map (fun noext => pkg ++ rel.dropLast ++ [noext])
 
-/-- `find_suites`: the modules that get imported, in order: yielded files whose module name passes
-`--module` (`accept`) -/
-def importedModules (e : Env) (accept : List Name → Bool) (roots : List (List Name × Tree)) : List (List Name) :=
+/-- `find_suites`: the modules that get imported, in order: yielded files whose module name — the
+imported dotted name, package included — passes `--module` (`accept`) -/
+def importedModules (e : Env) (accept : List Name → Bool) (roots : List (List Name × Tree))
+    (pkgs : List (List Name)) : List (List Name) :=
   (findTestFiles e roots).filterMap (fun p =>
-    match moduleName e (roots.map (·.1)) p with
+    match moduleName e roots pkgs p with
     | some m => if accept m then some m else none
     | none => none)
 
